@@ -22,7 +22,7 @@ import hashlib
 import random
 
 from .. import import_asyncssh, apps, scen, vloop, tap as tapmod, flow, \
-    hostile, refssh as R
+    hostile, refpeer, work, refssh as R
 from . import c07
 
 asyncssh = import_asyncssh()
@@ -42,7 +42,7 @@ ASSUMPTIONS = ['tap allowance counts a WINDOW_ADJUST as known to the sender '
                '(RFC 4254 lets the receiver be lenient)']
 REQUIRED = ['tap_data_packets', 'tap_adjusts', 'rx_cases', 'rx_overrun_sent',
             'rx_paused_cases', 'tx_cases', 'tx_packets_checked',
-            'progress_checked']
+            'progress_checked', 'line_reader_cases']
 BUDGET_S = {'quick': 240, 'thorough': 3000}
 CASE_TIMEOUT_S = 60
 
@@ -91,6 +91,32 @@ def gen_cases(tier, seed):
                       'chunk': rng.choice(['all', 'one', 'random',
                                            'record']),
                       'cseed': rng.randrange(1 << 30)})
+    # the peer-chosen maximum packet size meets the off-by-one allowance for
+    # peers calling themselves dropbear (applied when compression is on):
+    # whatever size results, the sender must neither exceed it nor spin
+    for role in ('server', 'client'):
+        for pkt in (1, 2, 3):
+            for pattern in ('ones', 'big'):
+                cases.append({'kind': 'tx', 'role': role, 'window': 1000,
+                              'pkt': pkt, 'pattern': pattern, 'size': 300,
+                              'stderr': False, 'chunk': 'all',
+                              'peer_kw': {'version':
+                                          'SSH-2.0-dropbear_2020.81',
+                                          'cmp': 'zlib@openssh.com'},
+                              'cseed': 90 + pkt})
+
+    # a receiver that reads *lines* with the stream API: a line longer than
+    # its window comes out in pieces; as long as it keeps reading, the window
+    # is replenished and every byte arrives, followed by EOF
+    for role in ('client', 'server'):
+        for window in (4096, 1000, 65536):
+            for mult, tail in ((1, 0), (3, 123), (2, 1), (1, 17)):
+                for how in ('readline', 'iter', 'readuntil'):
+                    cases.append({'kind': 'lines', 'role': role,
+                                  'window': window,
+                                  'first': window * mult + tail,
+                                  'how': how, 'chunk': 'all',
+                                  'cseed': window + mult})
     return cases
 
 
@@ -350,8 +376,20 @@ def _tx_adjusts(case, need):
     return [0xffffffff]           # overflow: window + adjust > 2^32-1
 
 
+def _peer_kw(case):
+    kw = dict(case.get('peer_kw') or {})
+    if 'version' in kw:
+        kw['version'] = kw['version'].encode()
+    if 'cmp' in kw:
+        kw['cmp'] = [kw['cmp'].encode()]
+    return kw
+
+
 def _run_tx(case, mon, viol):
     mon['tx_cases'] += 1
+    # the allowance makes the effective limit one less than announced
+    eff_pkt = case['pkt'] - (1 if case.get('peer_kw') else 0)
+    meter = work.WorkMeter() if case.get('peer_kw') else None
     size = case['size']
     data = apps.stream_bytes('tx', size)
     ext = case['stderr'] and case['role'] == 'server'
@@ -375,6 +413,10 @@ def _run_tx(case, mon, viol):
             if len(d) > case['pkt']:
                 viol.append({'mechanism': 'sender_max_packet_exceeded',
                              'detail': f'{len(d)} > {case["pkt"]}'})
+            if not d and len(viol) < 3:
+                viol.append({'mechanism': 'empty_data_packet_sent',
+                             'detail': f'announced packet size '
+                                       f'{case["pkt"]}'})
             if state['recv'] > state['granted']:
                 viol.append({'mechanism': 'sender_window_exceeded',
                              'detail': f'received {state["recv"]} bytes, '
@@ -403,19 +445,29 @@ def _run_tx(case, mon, viol):
 
         async def drive(env, peer, ch, write):
             await env.settle()
-            write()
-            await env.settle()
-            await pump(peer)
-            for adj in _tx_adjusts(case, size):
-                if peer.closed or state['closed']:
-                    break
-                peer.send(bytes([R.MSG_CHANNEL_WINDOW_ADJUST]) +
-                          R.u32(ch['remote_id']) + R.u32(adj))
-                state['granted'] += adj
+            if meter is not None:
+                meter.install()
+                meter.new_input(size)
+            try:
+                write()
                 await env.settle()
                 await pump(peer)
-            await env.settle()
-            await pump(peer)
+                for adj in _tx_adjusts(case, size):
+                    if peer.closed or state['closed']:
+                        break
+                    peer.send(bytes([R.MSG_CHANNEL_WINDOW_ADJUST]) +
+                              R.u32(ch['remote_id']) + R.u32(adj))
+                    state['granted'] += adj
+                    await env.settle()
+                    await pump(peer)
+                await env.settle()
+                await pump(peer)
+            finally:
+                # (a spin inside a loop callback ends the whole run with
+                # WorkBudgetExceeded; run_case reports that)
+                if meter is not None:
+                    meter.armed = False
+                    meter.uninstall()
 
         if case['role'] == 'server':
             class Srv(apps.RecServer):
@@ -427,9 +479,18 @@ def _run_tx(case, mon, viol):
             async with scen.Env(loop, server_factory=lambda: Srv(log),
                                 chunking=case['chunk'],
                                 seed=case['cseed']) as env:
-                peer = await hostile.ref_client(env.wire)
-                ch = await hostile.ref_client_exec(
-                    peer, window=case['window'], pktsize=case['pkt'])
+                peer = await hostile.ref_client(env.wire, **_peer_kw(case))
+                try:
+                    ch = await hostile.ref_client_exec(
+                        peer, window=case['window'], pktsize=case['pkt'])
+                except (R.RefError, refpeer.PeerClosed):
+                    if eff_pkt <= 0:
+                        # a size nothing can be sent with: refusing is fine
+                        mon['tx_refused_unusable_size'] = \
+                            mon.get('tx_refused_unusable_size', 0) + 1
+                        mon['tx_packets_checked'] += 1
+                        return
+                    raise
                 app = sessions[0]
 
                 def write():
@@ -450,14 +511,26 @@ def _run_tx(case, mon, viol):
                                 seed=case['cseed']) as env:
                 env.acceptor.close()
                 srv = hostile.RefServerScript(env.wire, window=case['window'],
-                                              pktsize=case['pkt'])
+                                              pktsize=case['pkt'],
+                                              **_peer_kw(case))
                 await srv.listen()
                 st = asyncio.ensure_future(srv.run_until_session())
                 env.san.harness_tasks.add(st)
                 conn = await env.connect(known_hosts=srv.known_hosts())
-                chan, app = await conn.create_session(
-                    lambda: apps.RecClientSession(log, 'c'), 'x',
-                    encoding=None)
+                try:
+                    chan, app = await conn.create_session(
+                        lambda: apps.RecClientSession(log, 'c'), 'x',
+                        encoding=None)
+                except asyncssh.Error:
+                    if eff_pkt <= 0:
+                        mon['tx_refused_unusable_size'] = \
+                            mon.get('tx_refused_unusable_size', 0) + 1
+                        mon['tx_packets_checked'] += 1
+                        st.cancel()
+                        await asyncio.gather(st, return_exceptions=True)
+                        env.san.drain()
+                        return
+                    raise
                 await srv.ready.wait()
                 if srv.failed:
                     raise srv.failed
@@ -493,6 +566,93 @@ def _tx_judge(case, state, got, data, conn, viol, mon):
                          'detail': str(case)})
 
 
+def _run_lines(case, mon, viol):
+    data = b'A' * case['first'] + b'\nsecond line\n' + b'B' * 300 + \
+        b'\nlast, unterminated'
+    out = {}
+
+    async def consume(reader):
+        buf = bytearray()
+        empties = 0
+        it = reader.__aiter__()
+        while not reader.at_eof():
+            if case['how'] == 'readline':
+                piece = await reader.readline()
+            elif case['how'] == 'iter':
+                try:
+                    piece = await it.__anext__()
+                except StopAsyncIteration:
+                    piece = b''
+            else:
+                try:
+                    piece = await reader.readuntil(b'\n')
+                except asyncio.IncompleteReadError as exc:
+                    piece = exc.partial
+            buf += piece
+            empties = empties + 1 if not piece else 0
+            if empties > 50:
+                out['spin'] = len(buf)
+                break
+        out['got'] = bytes(buf)
+
+    async def main(loop):
+        async def srv_reader(process):
+            await consume(process.stdin)
+            process.exit(0)
+
+        async def srv_writer(process):
+            process.stdout.write(data)
+            process.exit(0)
+
+        role = case['role']
+        sopts = {'process_factory': srv_writer if role == 'client'
+                 else srv_reader, 'encoding': None}
+        if role == 'server':
+            sopts['window'] = case['window']
+        async with scen.Env(loop, server_factory=lambda: apps.RecServer(
+                apps.EventLog()), chunking=case['chunk'], seed=case['cseed'],
+                server_opts=sopts) as env:
+            conn = await env.connect()
+            if role == 'client':
+                proc = await conn.create_process('x', encoding=None,
+                                                 window=case['window'])
+                t = asyncio.ensure_future(consume(proc.stdout))
+            else:
+                proc = await conn.create_process('x', encoding=None)
+                proc.stdin.write(data)
+                proc.stdin.write_eof()
+                t = asyncio.ensure_future(proc.wait())
+            env.san.harness_tasks.add(t)
+            await env.settle()
+            mon['line_reader_cases'] += 1
+            mon['progress_checked'] += 1
+            what = f'{role} reading with {case["how"]}, window ' \
+                   f'{case["window"]}, first line {case["first"]} bytes'
+            if 'spin' in out:
+                viol.append({'mechanism': 'reader_returns_empty_before_eof',
+                             'detail': f'{what}: more than 50 empty results '
+                                       f'in a row without EOF after '
+                                       f'{out["spin"]} of {len(data)} '
+                                       f'bytes'})
+            elif not t.done():
+                viol.append({'mechanism': 'stalled_although_reader_reads',
+                             'detail': f'{what}: the transfer is stuck at '
+                                       f'quiescence'})
+            elif out.get('got') != data:
+                viol.append({'mechanism': 'stalled_although_reader_reads',
+                             'detail': f'{what}: {len(out.get("got", b""))} '
+                                       f'of {len(data)} bytes delivered '
+                                       f'before EOF'})
+            if not t.done():
+                t.cancel()
+            await asyncio.gather(t, return_exceptions=True)
+            conn.abort()
+            await env.settle()
+            env.san.drain()
+
+    scen.run(main)
+
+
 def run_case(case):
     mon = {k: 0 for k in REQUIRED}
     viol = []
@@ -503,15 +663,30 @@ def run_case(case):
             res = _run_tap(case, mon, viol)
             sample = dict(res.get('sample') or {}, kind='tap',
                           tap_data_packets=mon['tap_data_packets'])
+        elif case['kind'] == 'lines':
+            _run_lines(case, mon, viol)
         elif case['kind'] == 'rx':
             _run_rx(case, mon, viol)
         else:
             _run_tx(case, mon, viol)
     except vloop.QuiescentHang as exc:
         viol.append({'mechanism': 'hang', 'detail': f'{case["kind"]}: {exc}'})
+    except work.WorkBudgetExceeded:
+        # the meter broke a spin inside a loop callback
+        mon['tx_packets_checked'] += 1
+        viol.append({'mechanism': 'work_budget_exceeded',
+                     'detail': f'sending to a peer that announced maximum '
+                               f'packet size {case.get("pkt")} '
+                               f'({case.get("peer_kw")}) never finished'})
+    finally:
+        try:
+            import sys
+            sys.monitoring.free_tool_id(work.TOOL)
+        except Exception:       # pylint: disable=broad-except
+            pass
 
     nontrivial = (mon['tap_data_packets'] or mon['rx_cases'] or
-                  mon['tx_packets_checked'])
+                  mon['tx_packets_checked'] or mon['line_reader_cases'])
     res = {'mon': mon, 'sig': signature(case) if nontrivial else None,
            'sample': sample}
     seen = set()
